@@ -234,6 +234,7 @@ func runC02(c *core.Ctx) {
 
 	c.Doc("C02.constructors", "signature constructors (the readers opaque values are consumed with): letter, reader width, Go type agree; object references use one signature for reader and type", 11)
 	ruleConstructorsAs(c, derivePrims(c), "C02.constructors")
+	ruleReaderWidthTables(c, "C02.constructors")
 
 	// exact consumption rests on the contract of the retry loop and on its callers keeping it
 	c.Doc("C02.readn", "ReadN: nil only when complete, fragments accumulated at the right offset; every call passes the length of the buffer it fills", 10)
